@@ -83,7 +83,7 @@ FAMILIES = {
     "C41": ["bridge"],
     "C33": ["aio"],
     "C31": ["evloop"],
-    "C34": ["evloop"],
+    "C34": ["evloop", "periodic"],
     "C14": ["early", "op", "srcfac", "own", "class", "subscribe", "tramp"],
     "C02": ["own", "class", "subscribe", "compose"],
     "C03": ["own", "class", "subscribe", "compose", "srcfac"],
@@ -91,7 +91,7 @@ FAMILIES = {
     "C42": ["catchsched"],
     "C09": ["guard", "op"],
     "C30": ["tramp"],
-    "C35": ["periodic"],
+    "C35": ["periodic", "catchsched"],
     "C37": ["srcfac"],
     "C10": ["seqcomp", "op"],
     "C24": ["mcast"],
